@@ -17,7 +17,9 @@ Declined(e, tag) == IF DocumentedRefusal(e) THEN <<"ok", tag \o ":declined">> EL
 Hints(e, grp) == IF grp \in DOMAIN e.hints THEN e.hints[grp] ELSE <<>>
 
 ItfJudge(e, meaningful, wantIn, wantOut) ==
-  IF ~e.intact THEN <<"violation", "itf:operand-changed">>       \* an operand, re-inspected after the call, is no longer what it was
+  IF ~e.intact THEN <<"violation", IF Raised(e) THEN "itf:operand-changed-by-failed-call" ELSE "itf:operand-changed">>
+                                                                  \* an operand, re-inspected after the call, is no longer what it was
+                                                                  \* (C06/C13; after an error also C14: "an error leaves all operands usable")
   ELSE IF Raised(e)
   THEN IF ~meaningful
        THEN (IF e.exc = "IncompatibleArgsError" THEN <<"ok", "itf:rejected">> ELSE <<"violation", "itf:wrong-rejection:" \o e.exc>>)
